@@ -21,7 +21,7 @@ def one(d):
                 applied = pf; break
         if not applied:
             return name, None, 'patch does not apply'
-        env = dict(os.environ, VERIF_REPO=wt)
+        env = dict(os.environ, VERIF_REPO=wt, VERIF_EVIDENCE_DIR=wt + '.evidence')
         det = []
         for c in CHECKS:
             r = sh([os.path.join(HERE, 'check'), c, '--tier', 'quick'], env=env)
@@ -33,6 +33,8 @@ def one(d):
         return name, det, applied
     finally:
         sh(['git', '-C', '/repo', 'worktree', 'remove', '--force', wt])
+        import shutil
+        shutil.rmtree(wt + '.evidence', ignore_errors=True)
 
 dirs = []
 for base in ('seeded', 'selftest'):
